@@ -199,8 +199,20 @@ pub fn record_schema(a: &Args) {
                 cfg.expand_empty = r.chance(1, 2);
             }
             let op = if sess.tree.is_some() { "extend" } else { "parse" };
-            let obs = observe(&bytes, &cfg);
-            let out = sess.feed(&bytes, &cfg, 0);
+            // one document in sixteen comes through a source that reports an I/O error at a random offset (and would
+            // deliver the rest afterwards); the independent pass reads through the same kind of source
+            let iofault = if boundary.is_none() && !bytes.is_empty() && r.chance(1, 16) {
+                Some((r.below(bytes.len() + 1), *r.pick(crate::run::IO_KINDS), [0usize, 1, 5, 64][r.below(4)]))
+            } else {
+                None
+            };
+            let (obs, out) = match iofault {
+                Some((at, kind, chunk)) => (
+                    crate::events::observe_reader(quick_xml::reader::Reader::from_reader(crate::run::Chunked::failing(&bytes, chunk, at, kind)), &cfg),
+                    sess.feed_failing(&bytes, &cfg, chunk, at, kind),
+                ),
+                None => (observe(&bytes, &cfg), sess.feed(&bytes, &cfg, 0)),
+            };
             *outcomes.entry(out.st().to_string()).or_default() += 1;
             let result = match &out {
                 Outcome::Ok(v) => crate::proj::result_ok(v),
@@ -209,7 +221,8 @@ pub fn record_schema(a: &Args) {
             };
             let clash = dom(&obs.events, &obs.ws_text).iter().any(prefix_clash);
             o.line(&json!({"ev": "Call", "op": op, "events": obs.events, "result": result, "reader_error": err_json(&obs),
-                           "prefix_clash": clash, "doc": String::from_utf8_lossy(&bytes), "hex": hex(&bytes)}));
+                           "prefix_clash": clash, "doc": String::from_utf8_lossy(&bytes), "hex": hex(&bytes),
+                           "iofault": iofault.map(|(at, kind, chunk)| json!({"at": at, "kind": format!("{:?}", kind), "chunk": chunk})).unwrap_or(json!({"none": true}))}));
             calls += 1;
             session_docs.push(String::from_utf8_lossy(&bytes).into_owned());
         }
